@@ -58,6 +58,9 @@ DEP_HOOKS = [
      "after": "func NewInputStream(data string) *InputStream {",
      "insert": "\tif VerifInputHook != nil {\n\t\tVerifInputHook(data)\n\t}\n",
      "append": "\n// VerifInputHook observes the text handed to the lexer (/verif interception hook, overlay only).\nvar VerifInputHook func(string)\n"},
+    # a file ADDED to the antlr package: membership of a child sequence in a rule's sub-automaton of the deserialised ATN
+    # (go list does not add overlay files to a package of the module cache, so the function is appended to atn.go)
+    {"module": "github.com/antlr4-go/antlr/v4", "file": "atn.go", "after": "type ATN struct {", "insert": "", "append_file": "dep/antlr/conform.go"},
     # gonum's map iterators (unsafe + go:linkname into the runtime) replaced by plain `range` loops with the
     # same unexported interface and contract: harness/dep/gonum_iterator/map.go (C17)
     {"module": "gonum.org/v1/gonum", "file": "graph/iterator/map.go", "replace": "dep/gonum_iterator/map.go", "must_contain": "func (it *mapIter) next() bool"},
@@ -77,6 +80,8 @@ def dep_overlay():
     for i, h in enumerate(DEP_HOOKS):
         r = subprocess.run(["go", "list", "-m", "-f", "{{.Dir}}", h["module"]], cwd=REPO_GO, env=GOENV, capture_output=True, text=True)
         moddir = r.stdout.strip()
+        if "append_file" in h:
+            h = dict(h, append="\n" + "".join(l for l in open(os.path.join(HARNESS, h["append_file"])) if not l.startswith("package ")))
         src = open(os.path.join(moddir, h["file"])).read()
         if "replace" in h:
             # whole-file replacement; the anchor guards against a dependency version with another layout
@@ -728,6 +733,7 @@ def c02(tier):
                           "names are identifiers (a direct assignment without type restrictions and parameter types without a DSL word are part of the claim: they must be rejected)"], "",
                          bounds={"Shapes": "every rewrite tree with <= %d nodes, depth <= %d, <= 3 operands per operator, 4 restriction lists" % (W(tier, 5, 6), W(tier, 2, 3)),
                                  "Names": "type/relation/sibling names symbolic, length <= %d" % W(tier, 2, 3)})
+    grammar_facts(out, "C02")
     out.finish()
 
 
